@@ -206,6 +206,8 @@ pub struct Sut {
 	pub log_sizes: BTreeMap<String, u64>,  // last seen size of every log file
 	/// records appended since the last flush: (log file, end offset, is a transaction record)
 	pub appended: Vec<(String, u64, bool)>,
+	/// number of transaction records in every flushed, not yet fully read log file (oldest first)
+	pub file_records: std::collections::VecDeque<usize>,
 	pub hist: Vec<Tx>,
 	pub n_enacted: usize,
 }
@@ -225,6 +227,7 @@ impl Sut {
 			synced_len: Default::default(),
 			log_sizes: Default::default(),
 			appended: vec![],
+			file_records: Default::default(),
 			hist: vec![],
 			n_enacted: 0,
 		}
@@ -279,6 +282,7 @@ impl Sut {
 	pub fn flush(&mut self) -> Result<(), parity_db::Error> {
 		self.db().flush_logs()?;
 		if self.logged > self.flushed {
+			self.file_records.push_back(self.logged - self.flushed);
 			self.flushed = self.logged;
 			self.unread_files += 1;
 		}
@@ -312,8 +316,29 @@ impl Sut {
 		self.n_enacted += self.flushed;
 		self.logged -= self.flushed;
 		self.flushed = 0;
+		self.file_records.clear();
 		self.refresh_sizes();
 		Ok(())
+	}
+	/// Enact exactly one flushed log file (one call of the stepping API). Returns the number of
+	/// transaction records it held (= number of model `enact` steps).
+	pub fn enact_file(&mut self) -> Result<usize, parity_db::Error> {
+		if self.dirty >= 3 {
+			self.clean()?;
+		}
+		self.db().enact_logs()?;
+		let k = if self.unread_files > 0 {
+			self.unread_files -= 1;
+			self.dirty += 1;
+			self.file_records.pop_front().unwrap_or(0)
+		} else {
+			0
+		};
+		self.n_enacted += k;
+		self.logged -= k;
+		self.flushed -= k;
+		self.refresh_sizes();
+		Ok(k)
 	}
 	pub fn clean(&mut self) -> Result<(), parity_db::Error> {
 		self.db().clean_logs()?;
@@ -345,6 +370,7 @@ impl Sut {
 		self.synced_len.clear();
 		self.log_sizes.clear();
 		self.appended.clear();
+		self.file_records.clear();
 		self.n_enacted = self.hist.len();
 	}
 	pub fn reopen(&mut self) -> Result<(), parity_db::Error> {
@@ -535,6 +561,18 @@ pub fn run_case(
 			let r = sut.flush();
 			t.op("p1 flush", &res(&r));
 			ctr.inc("op.flush");
+		} else if a < 71 {
+			let r = sut.enact_file();
+			match r {
+				Ok(k) => {
+					for _ in 0..k {
+						t.op("p1 enact", "ok");
+					}
+					t.comment(&format!("enactfile records={}", k));
+				},
+				Err(e) => t.op("p1 enact", &format!("err:{}", err_kind(&e))),
+			}
+			ctr.inc("op.enactfile");
 		} else if a < 78 {
 			let r = sut.enact_all();
 			t.op("p1 enactall", &res(&r));
